@@ -169,6 +169,13 @@ fn elf_batch(start: u32, count: usize) -> Result<(), String> {
 /// exactly the in-use ones, in order, each classified as documented - whatever
 /// the flags and whatever the neighbouring headers are.
 fn elf_custom(entries: &[(u32, u64)]) -> Result<(), String> {
+    elf_custom_named(entries, None)
+}
+
+/// `names`: Some(base) - every header's address is the harness-owned names buffer
+/// (header 0 is the string table) and its name is one of the names linkers emit,
+/// rotating; the header index is then carried by the size field instead of the address.
+fn elf_custom_named(entries: &[(u32, u64)], names: Option<usize>) -> Result<(), String> {
     let count = entries.len();
     let mut body = vec![0u8; 12 + 64 * count];
     put32(&mut body, 0, count as u32);
@@ -178,6 +185,11 @@ fn elf_custom(entries: &[(u32, u64)]) -> Result<(), String> {
         put32(&mut body, 12 + 64 * e + 4, *t);
         put64(&mut body, 12 + 64 * e + 8, *f);
         put64(&mut body, 12 + 64 * e + 16, e as u64);
+        if let Some(b) = names {
+            put32(&mut body, 12 + 64 * e, mb2_model::elfnames::real_name_off(e));
+            put64(&mut body, 12 + 64 * e + 16, b as u64);
+            put64(&mut body, 12 + 64 * e + 32, e as u64);
+        }
     }
     let mut img = mb2_model::encode::tag(9, &body);
     mb2_model::encode::pad8(&mut img, 0);
@@ -185,22 +197,23 @@ fn elf_custom(entries: &[(u32, u64)]) -> Result<(), String> {
     let tag = multiboot2_common::DynSizedStructure::<m::TagHeader>::ref_from_slice(a.as_slice()).map_err(|e| format!("{e:?}"))?;
     let tag = tag.cast::<m::ElfSectionsTag>();
     let mut it = tag.sections();
+    let index_of = |s: &m::ElfSection| if names.is_some() { s.size() } else { s.start_address() };
     for (e, (raw, f)) in entries.iter().enumerate() {
         if elf_type_name(*raw) == "Unused" {
             continue;
         }
         match it.next() {
-            Some(s) if s.start_address() == e as u64 && s.section_type_raw() == *raw => {
+            Some(s) if index_of(&s) == e as u64 && s.section_type_raw() == *raw => {
                 if s.section_type() as u32 != mb2_model::expect_mbi::elf_type_class(*raw) {
-                    return Err(format!("ELF raw type {raw:#x} with flags {f:#x} (header {e} of {count}) classified as {:?}, documented: {}", s.section_type(), elf_type_name(*raw)));
+                    return Err(format!("ELF raw type {raw:#x} with flags {f:#x}{} (header {e} of {count}) classified as {:?}, documented: {}", if names.is_some() { format!(", named {:?}", mb2_model::elfnames::REAL_NAMES[e % mb2_model::elfnames::REAL_NAMES.len()]) } else { String::new() }, s.section_type(), elf_type_name(*raw)));
                 }
             }
-            Some(s) => return Err(format!("header {e} (raw type {raw:#x}, flags {f:#x}, {}) expected next, the iterator yielded header {} with raw type {:#x}", elf_type_name(*raw), s.start_address(), s.section_type_raw())),
+            Some(s) => return Err(format!("header {e} (raw type {raw:#x}, flags {f:#x}, {}) expected next, the iterator yielded header {} with raw type {:#x}", elf_type_name(*raw), index_of(&s), s.section_type_raw())),
             None => return Err(format!("header {e} (raw type {raw:#x}, flags {f:#x}) is in use ({}) but was skipped", elf_type_name(*raw))),
         }
     }
     if let Some(s) = it.next() {
-        return Err(format!("the iterator yielded an unused header: index {} raw type {:#x} flags {:#x}", s.start_address(), s.section_type_raw(), s.flags().bits()));
+        return Err(format!("the iterator yielded an unused header: index {} raw type {:#x} flags {:#x}", index_of(&s), s.section_type_raw(), s.flags().bits()));
     }
     Ok(())
 }
@@ -216,6 +229,19 @@ fn elf_contexts() -> Result<u64, String> {
             let entries: Vec<(u32, u64)> = (0..64).map(|i| (base.wrapping_add(i), flags | if i % 2 == 0 { 0 } else { 0xFFFF_FFFF_FFFF_FFF8 })).collect();
             elf_custom(&entries)?;
             n += 64;
+        }
+    }
+    // every boundary raw type under every name linkers emit (the classification is
+    // a function of the raw type: not of what the section is called)
+    if let Some(base) = mb2_model::elfnames::base() {
+        let raws: Vec<u32> = (0..=16).chain([0x5FFF_FFFF, 0x6000_0000, 0x6000_0001, 0x6FFF_FFF5, 0x6FFF_FFFF, 0x7000_0000, 0x7000_0001, 0x7000_0002, 0x7FFF_FFFF, 0x8000_0000, u32::MAX]).collect();
+        let nn = mb2_model::elfnames::REAL_NAMES.len();
+        for raw in raws {
+            // header 0: the string table itself; then the raw type once per name
+            let mut entries: Vec<(u32, u64)> = vec![(3, 0)];
+            entries.extend((0..nn).map(|_| (raw, 2u64)));
+            elf_custom_named(&entries, Some(base))?;
+            n += nn as u64;
         }
     }
     let known: Vec<u32> = (1..=11).chain([0x6000_0000, 0x6FFF_FFFF, 0x7000_0000, 0x7FFF_FFFF]).collect();
@@ -504,7 +530,7 @@ pub fn subs() -> Vec<Box<dyn Sub>> {
     vec![Box::new(LoopSub {
         name: "conversions",
         profiles: Profiles::Both,
-        rule: "for a 32-bit value v: u32->TagType->u32 identity, named iff v<=21 with the specification's names, Custom(v) otherwise; TagTypeId paths commute; == between u32/TagTypeId/TagType in all directions against v, v^1, v+1, 0, 21, 22 equals numeric equality; MemoryAreaType (1..=5 named) both directions and cross ==; ELF raw-type classification through crafted ELF64 tables of 4096 consecutive raw values (iterator yields exactly the in-use classes with the documented names), and in context: every raw type 0..=63 and around each class boundary x all 8 combinations of the low flag bits (high flag bits all set in every second header), and for every in-use type k and every bit b the neighbouring headers (k ^ 2^b, k) in both orders and at both index parities; all 256 framebuffer type bytes on a stand-alone tag, and through the getter of a loaded boot information with 6 conventional framebuffer addresses (EGA text, VGA, PCI BARs) x 7 sets of other tags present (none, EFI system tables, EFI map + boot services, ...); both exported magics. Thorough/release: all 2^32 values (exhaustive); otherwise all v<2^16, 2^k+-16, class boundaries, 2^16 seeded samples, ELF batches at every class boundary + 200 sampled. Non-trivial = v > 21; distinct by v",
+        rule: "for a 32-bit value v: u32->TagType->u32 identity, named iff v<=21 with the specification's names, Custom(v) otherwise; TagTypeId paths commute; == between u32/TagTypeId/TagType in all directions against v, v^1, v+1, 0, 21, 22 equals numeric equality; MemoryAreaType (1..=5 named) both directions and cross ==; ELF raw-type classification through crafted ELF64 tables of 4096 consecutive raw values (iterator yields exactly the in-use classes with the documented names), and in context: every raw type 0..=63 and around each class boundary x all 8 combinations of the low flag bits (high flag bits all set in every second header), every boundary raw type under each of 14 section names that linkers emit (resolvable through a valid string table), and for every in-use type k and every bit b the neighbouring headers (k ^ 2^b, k) in both orders and at both index parities; all 256 framebuffer type bytes on a stand-alone tag, and through the getter of a loaded boot information with 6 conventional framebuffer addresses (EGA text, VGA, PCI BARs) x 7 sets of other tags present (none, EFI system tables, EFI map + boot services, ...); both exported magics. Thorough/release: all 2^32 values (exhaustive); otherwise all v<2^16, 2^k+-16, class boundaries, 2^16 seeded samples, ELF batches at every class boundary + 200 sampled. Non-trivial = v > 21; distinct by v",
         run,
         replay,
     })]
